@@ -1,6 +1,7 @@
 import Mathlib.Analysis.SpecialFunctions.Complex.Circle
 import PbProofs.DayFrac
 import PbProofs.DayFracMul
+import PbProofs.Settle
 import PbModel.Pol
 
 /-! # C07 — Phase arithmetic keeps two-double precision for every operand kind
@@ -87,6 +88,19 @@ theorem C07_dayfrac_div (M : FPModel) (hE : M.TwoSumExact) (hP : M.TwoProductExa
 theorem C07_exact_two_product : exactModel.TwoProductExact := by
   intro a b _ _
   simp [FPModel.twoProduct, FPModel.ops, Pb.DayFrac.twoProduct, Pb.DayFrac.split, Pb.DayFrac.ratOps, exactModel]
+
+/-- **floor division / remainder / divmod** (exact-rational view of the last step of the
+`floor_divide` branch): whatever the rounded estimates produced, as long as the quotient estimate is
+within one of `⌊A/B⌋`, comparing the exact remainder with zero and with the divisor and moving the
+quotient by one yields exactly `⌊A/B⌋` and the remainder in `[0, B)` (`(B, 0]` for `B < 0`). -/
+theorem C07_floordiv_settle (A B : ℚ) (hB : B ≠ 0) (fd : ℤ) (h : |fd - ⌊A / B⌋| ≤ 1) :
+    (settle A B fd).1 = ⌊A / B⌋ ∧ (settle A B fd).2 = A - ⌊A / B⌋ * B ∧
+    (0 < B → 0 ≤ (settle A B fd).2 ∧ (settle A B fd).2 < B) ∧
+    (B < 0 → B < (settle A B fd).2 ∧ (settle A B fd).2 ≤ 0) :=
+  settle_spec A B hB fd h
+
+example : settle (10 : ℚ) 3 4 = (3, 1) ∧ settle (10 : ℚ) 3 2 = (3, 1) ∧ settle (-10 : ℚ) 3 (-3) = (-4, 2) ∧
+    settle (10 : ℚ) (-3) (-3) = (-4, -2) := by decide +kernel
 
 /-! ### real / imaginary axes -/
 
